@@ -4,7 +4,10 @@
 //!        h_fsstore mt  <v1|v2> <seed> <threads> <ops_per_thread> <nkeys> <dir>   concurrent history
 //!        h_fsstore aseq <v1|v2> <seed> <nscenarios> <dir>   async API: operations ISSUED in one order, their
 //!                                                         futures driven to completion in another
-//!        h_fsstore amt <v1|v2> <seed> <tasks> <ops_per_task> <nkeys> <dir>  async API on a multi-thread runtime
+//!        h_fsstore amt <v1|v2> <seed> <tasks> <ops_per_task> <nkeys> <dir> [sab 0|1]  async API on a multi-thread
+//!                      runtime; with sab=1 a saboteur thread makes key files immutable for short windows
+//!  aseq operations tagged `:x` (directory at the destination) or `:i` (immutable destination file) are made to fail
+//!  inside the per-key lock while their future runs.
 //! Lines start with "R ".
 //!  aseq: R A <scen> ops <W:k:id|D:k:lazy|G:k|L> ... ; order <issue index> ...
 //!        R A <scen> step <j> op <i> res <..> state <k0> <k1> ...      (state read back synchronously)
@@ -274,6 +277,28 @@ fn run_mt(ver: &str, seed: u64, threads: usize, per: usize, nkeys: usize, dir: P
 	let _ = std::fs::remove_dir_all(&dir);
 }
 
+/// `chattr +i/-i`: an immutable file can be neither unlinked nor renamed over, even by root.
+fn set_immutable(p: &std::path::Path, on: bool) -> bool {
+	std::process::Command::new("chattr")
+		.arg(if on { "+i" } else { "-i" })
+		.arg(p)
+		.stderr(std::process::Stdio::null())
+		.status()
+		.map(|s| s.success())
+		.unwrap_or(false)
+}
+fn immutable_supported(dir: &std::path::Path) -> bool {
+	let _ = std::fs::create_dir_all(dir);
+	let probe = dir.join("immutable-probe");
+	if std::fs::write(&probe, b"x").is_err() {
+		return false;
+	}
+	let ok = set_immutable(&probe, true) && std::fs::remove_file(&probe).is_err();
+	set_immutable(&probe, false);
+	let _ = std::fs::remove_file(&probe);
+	ok
+}
+
 enum AOut {
 	Unit(Result<(), lightning::io::Error>),
 	Bytes(Result<Vec<u8>, lightning::io::Error>),
@@ -330,6 +355,8 @@ fn run_aseq(ver: &str, seed: u64, nscen: usize, dir: PathBuf) {
 	let ks = keys();
 	let mut rng = Rng(seed);
 	let nkeys = 2usize;
+	let cap = immutable_supported(&dir);
+	println!("R cap immutable={}", if cap { 1 } else { 0 });
 	for sc in 0..nscen {
 		let d = dir.join(format!("s{}", sc));
 		let _ = std::fs::remove_dir_all(&d);
@@ -338,6 +365,7 @@ fn run_aseq(ver: &str, seed: u64, nscen: usize, dir: PathBuf) {
 		let n = 2 + rng.below(6) as usize;
 		let mut futs: Vec<Option<AFut>> = Vec::new();
 		let mut desc = Vec::new();
+		let mut sabotage: Vec<(usize, char)> = Vec::new();
 		let mut next_id = 1u64;
 		// optionally a completed prefix so that files exist before the interesting part
 		for i in 0..n {
@@ -349,11 +377,30 @@ fn run_aseq(ver: &str, seed: u64, nscen: usize, dir: PathBuf) {
 				let len = 8 + rng.below(200) as usize;
 				known.insert(id, len);
 				futs.push(Some(issue(&store, "W", &ks[k], value(id, len), false)));
-				desc.push(format!("W:{}:{}", k, id));
+				// some writes are made to FAIL inside the per-key lock: while their future runs, a
+				// directory sits at the destination path (":x", rename -> EISDIR) or the existing
+				// destination file is immutable (":i", rename -> EPERM)
+				match rng.below(6) {
+					0 => {
+						sabotage.push((i, 'x'));
+						desc.push(format!("W:{}:{}:x", k, id));
+					},
+					1 if cap => {
+						sabotage.push((i, 'i'));
+						desc.push(format!("W:{}:{}:i", k, id));
+					},
+					_ => desc.push(format!("W:{}:{}", k, id)),
+				}
 			} else if r < 8 {
 				let lazy = rng.below(2) == 0;
 				futs.push(Some(issue(&store, "D", &ks[k], Vec::new(), lazy)));
-				desc.push(format!("D:{}:{}", k, if lazy { 1 } else { 0 }));
+				// removes fail (unlink -> EPERM) when the file they find is immutable
+				if cap && rng.below(3) == 0 {
+					sabotage.push((i, 'i'));
+					desc.push(format!("D:{}:{}:i", k, if lazy { 1 } else { 0 }));
+				} else {
+					desc.push(format!("D:{}:{}", k, if lazy { 1 } else { 0 }));
+				}
 			} else if r < 9 {
 				futs.push(Some(issue(&store, "G", &ks[k], Vec::new(), false)));
 				desc.push(format!("G:{}", k));
@@ -378,7 +425,42 @@ fn run_aseq(ver: &str, seed: u64, nscen: usize, dir: PathBuf) {
 		println!("R A {} ops {} ; order {}", sc, desc.join(" "), order.iter().map(|x| x.to_string()).collect::<Vec<_>>().join(" "));
 		for (j, &i) in order.iter().enumerate() {
 			let f = futs[i].take().unwrap();
+			let sab = sabotage.iter().find(|(x, _)| *x == i).map(|(_, c)| *c);
+			let kidx: usize = desc[i].split(':').nth(1).and_then(|x| x.parse().ok()).unwrap_or(0);
+			let dest = d.join("np1").join("ns1").join(&ks[kidx]);
+			let bak = d.join(format!("bak-{}", i));
+			let mut had_file = false;
+			let mut immut = false;
+			match sab {
+				Some('x') => {
+					if dest.is_file() {
+						std::fs::rename(&dest, &bak).unwrap();
+						had_file = true;
+					}
+					std::fs::create_dir_all(&dest).unwrap();
+				},
+				Some('i') => {
+					if dest.is_file() {
+						immut = set_immutable(&dest, true);
+					}
+				},
+				_ => {},
+			}
 			let out = rt.block_on(f);
+			match sab {
+				Some('x') => {
+					let _ = std::fs::remove_dir_all(&dest);
+					if had_file {
+						std::fs::rename(&bak, &dest).unwrap();
+					}
+				},
+				Some('i') => {
+					if immut {
+						set_immutable(&dest, false);
+					}
+				},
+				_ => {},
+			}
 			let res = show_out(out, &known, &ks);
 			let mut st = Vec::new();
 			for k in 0..nkeys {
@@ -397,8 +479,33 @@ fn run_aseq(ver: &str, seed: u64, nscen: usize, dir: PathBuf) {
 	println!("R end");
 }
 
-fn run_amt(ver: &str, seed: u64, tasks: usize, per: usize, nkeys: usize, dir: PathBuf) {
+fn run_amt(ver: &str, seed: u64, tasks: usize, per: usize, nkeys: usize, dir: PathBuf, sab: bool) {
 	let _ = std::fs::remove_dir_all(&dir);
+	let sab = sab && immutable_supported(&dir);
+	println!("R cap immutable={}", if sab { 1 } else { 0 });
+	let stop = Arc::new(std::sync::atomic::AtomicBool::new(false));
+	// the saboteur: while the tasks run, key files become immutable for short windows, so that
+	// writes (rename) and removes (unlink) executing inside the per-key lock fail
+	let saboteur = if sab {
+		let (stop, dir, ks) = (stop.clone(), dir.clone(), keys());
+		Some(std::thread::spawn(move || {
+			let mut rng = Rng(seed ^ 0x5ab07a6e);
+			let mut windows = 0u64;
+			while !stop.load(Ordering::SeqCst) {
+				let k = rng.below(nkeys as u64) as usize;
+				let p = dir.join("np1").join("ns1").join(&ks[k]);
+				if p.is_file() && set_immutable(&p, true) {
+					windows += 1;
+					std::thread::sleep(std::time::Duration::from_micros(200 + rng.below(1500)));
+					set_immutable(&p, false);
+				}
+				std::thread::sleep(std::time::Duration::from_micros(rng.below(800)));
+			}
+			windows
+		}))
+	} else {
+		None
+	};
 	let rt = tokio::runtime::Builder::new_multi_thread().worker_threads(4).build().unwrap();
 	let store = Arc::new(Store::open(ver, dir.clone()));
 	let clock = Arc::new(AtomicU64::new(1));
@@ -447,6 +554,17 @@ fn run_amt(ver: &str, seed: u64, tasks: usize, per: usize, nkeys: usize, dir: Pa
 			h.await.unwrap();
 		}
 	});
+	stop.store(true, Ordering::SeqCst);
+	if let Some(h) = saboteur {
+		let w = h.join().unwrap();
+		println!("R sab windows={}", w);
+		for k in 0..nkeys {
+			let p = dir.join("np1").join("ns1").join(&ks[k]);
+			if p.is_file() {
+				set_immutable(&p, false);
+			}
+		}
+	}
 	let mut lines = out.lock().unwrap().clone();
 	for k in 0..nkeys {
 		let a = clock.fetch_add(1, Ordering::SeqCst);
@@ -473,7 +591,7 @@ fn main() {
 		Some("seq") => run_seq(&a[2], a[3].parse().unwrap(), a[4].parse().unwrap(), PathBuf::from(&a[5])),
 		Some("mt") => run_mt(&a[2], a[3].parse().unwrap(), a[4].parse().unwrap(), a[5].parse().unwrap(), a[6].parse().unwrap(), PathBuf::from(&a[7])),
 		Some("aseq") => run_aseq(&a[2], a[3].parse().unwrap(), a[4].parse().unwrap(), PathBuf::from(&a[5])),
-		Some("amt") => run_amt(&a[2], a[3].parse().unwrap(), a[4].parse().unwrap(), a[5].parse().unwrap(), a[6].parse().unwrap(), PathBuf::from(&a[7])),
+		Some("amt") => run_amt(&a[2], a[3].parse().unwrap(), a[4].parse().unwrap(), a[5].parse().unwrap(), a[6].parse().unwrap(), PathBuf::from(&a[7]), a.get(8).map(|x| x == "1").unwrap_or(false)),
 		_ => println!("R usage"),
 	}
 }
